@@ -27,6 +27,7 @@ def run(cx):
     cx.consulted(em)
     cx.explanation = (
         'scripts through parse() (partial evaluation): where marked statements land (setup/loop/functions), which break placements are refused, housekeeping order; C++ scoping of the IR (sa/irscope.py) on a script corpus; prologue values; configure-before-use decided on sketches extracted by partial evaluation for every device kind declared before the loop, at the top of it, behind injected polls, re-bound to other pins, six in a row; one mode per pin; block extents by exhaustive evaluation (shared with C07). Lifetime of variables first assigned inside branches of the main loop is not decided.'
+        " Since round 10 whole scripts are also taken through parse() and emit() (partial evaluation), the emitted translation unit is parsed by clang and interpreted by the checker's C evaluator on a scripted board (never compiled to code or run); phase scripts (prologue once and in order, persistence between passes, button sample before the first user statement of a pass) are decided on the traces of the c05 corpus scripts."
     )
     cls, fields = pe.ir_classes()
     pf = pm.func("parse")
